@@ -216,15 +216,17 @@ fn strategy(tier: Tier) -> BoxedStrategy<Case> {
 }
 
 pub fn checks() -> Vec<Box<dyn DynCheck>> {
-    vec![Box::new(C02)]
+    vec![Box::new(C02), Box::new(super::extendpaths::ExtCms)]
 }
 
 pub fn run(ctx: &Ctx) {
-    ctx.set_rule("generated: w in 1..=64 (rarely up to 3000), d in 1..=8 (rarely up to 24; w != d in most cases, both w > d and d > w), counter type in {u8,u16,u32,u64,usize}, hashers incl. row colliders (Split with chosen h1/h2, Const, Mod), universe <=32 keys, history of add/add_n/merge/clear with weights scaled to the remaining head-room so the documented overflow panic is never provoked. After every op, for every universe key: true(x) <= query_point(x) <= N; add/add_n return == query_point right after; a single distinct element is exact. Non-trivial: an overestimate was observed (two keys share a cell in every row), or a merge followed by an add, or w != d with d >= 2. Distinct = hash of the case; evaluations = operations executed.");
+    ctx.set_rule("generated: w in 1..=64 (rarely up to 3000), d in 1..=8 (rarely up to 24; w != d in most cases, both w > d and d > w), counter type in {u8,u16,u32,u64,usize}, hashers incl. row colliders (Split with chosen h1/h2, Const, Mod), universe <=32 keys, history of add/add_n/merge/clear with weights scaled to the remaining head-room so the documented overflow panic is never provoked. After every op, for every universe key: true(x) <= query_point(x) <= N; add/add_n return == query_point right after; a single distinct element is exact. Non-trivial: an overestimate was observed (two keys share a cell in every row), or a merge followed by an add, or w != d with d >= 2. Distinct = hash of the case; evaluations = operations executed. extend_path: default-hasher CountMinSketch (w 1..64, d 1..4) fed through Extend::extend in generated chunks: query_point never below the true count after any chunk and equal to a sketch filled by add calls.");
     ctx.assume("weights never overflow the counter type (checked_add panic is documented behaviour and not generated)");
     ctx.run_regressions(&[&C02]);
     let t = ctx.tier;
     ctx.run_random(&C02, t.pick(600_000, 5_000_000), move || strategy(t));
+    // the Extend entry point of the default-hasher CountMinSketch
+    ctx.run_random(&super::extendpaths::ExtCms, t.pick(30_000, 300_000), super::extendpaths::cms_strategy);
     ctx.require_class("history", "overestimate_observed", 0.2);
     ctx.require_class("history", "merge_then_add", 0.2);
     ctx.require_class("history", "w!=d", 0.6);
